@@ -71,6 +71,7 @@ def run(ctx, tier):
     ctx.rule("W4", "(shared with C19.I2) url and url_aggregator copies of the protocol setter's state-override block agree: same refusals, same default-port elision")
     ctx.rule("W5", "the IPv6 parsers of url and url_aggregator are statement-for-statement identical up to the storage epilogue")
     ctx.rule("W7", "ada::url::get_components() computes, on every path, the offsets of the layout url_aggregator maintains")
+    ctx.rule("W8", "the host parsers of the two types send the same byte values down the IDNA (unicode::to_ascii) route")
     ctx.rule("W6", "the setters of the two URL types normalise their input by the same steps in the same order")
     ctx.rule("W1", "twin implementations have the same validation skeleton")
     ctx.rule("W2", "both parser instantiations write the same components in every state")
@@ -272,6 +273,8 @@ def skeleton(f):
 
 
 def check(ctx, fx):
+    from rules import c04_route
+    c04_route.check(ctx, fx, "W8")
     # ---- W1 ----
     # (development-check builds add assertion control flow to the aggregator copy only: the
     #  skeletons are compared in the configurations without it)
